@@ -19,11 +19,11 @@ CHECKS = {
    note="trusted: simnet, synctest clock, seamgen overlay, echo actor; obfs4's 2-cut space and the pacing space are sampled; accept-loop glue re-implemented",
    tech=TECH + " (segmentation enumeration + seeded schedule/pacing search through the real station)"),
  "C05": dict(cat="fault_enumeration", ref="5 C05",
-   text="every single fault (connection end x operation kind x operation index < 6 x error shape, plus dial failures) over eight relay workloads is enumerated against the real Proxy/halfPipe under simulator-chosen I/O interleavings; pairs of faults and generated workloads are sampled (thorough: pairs enumerated for three workloads)",
+   text="every single fault (connection end x operation kind x operation index < 6 x error shape, plus dial failures) over eight relay workloads is enumerated against the real Proxy/halfPipe under simulator-chosen I/O interleavings; pairs of faults and generated workloads are sampled (thorough: pairs enumerated for three workloads); an abortive close (SO_LINGER 0, modelled by the simulated connection through the tcpconn seam) that throws away accepted bytes is a byte-count violation",
    note="trusted: simnet's model of TCP errors (OpError/SyscallError shapes), the synctest fake clock, the seamgen overlay; interleavings are sampled, not enumerated",
    tech=TECH + " (fault enumeration + seeded schedule search over parked I/O operations)"),
  "C06": dict(cat="exploration", ref="5 C06",
-   text="generated policies (blocklists, allowlists, domain patterns) x covert strings from a grammar of textual address forms x scripted resolver answers that change between lookups; every registration goes through the real ingest pipeline and is followed by a genuine connection through the real station; an independent net/netip evaluator judges each string that reaches the dial seam (literal, non-empty host, permitted, not a blocked domain, resolved exactly once at admission, dialled = checked, permitted well-formed literal accepted unchanged)",
+   text="generated policies (blocklists, allowlists, domain patterns), replaced by configuration reloads between registrations, x covert strings from a grammar of textual address forms x scripted resolver answers that change between lookups; every registration goes through the real ingest pipeline and is followed by a genuine connection through the real station; an independent net/netip evaluator judges each string that reaches the dial seam (literal, non-empty host, permitted, not a blocked domain, resolved exactly once at admission, dialled = checked, permitted well-formed literal accepted unchanged)",
    note="trusted: the independent evaluator; literals and the empty host are resolved by the real net.ResolveIPAddr (no DNS), names by the scripted resolver; the textual address space is sampled, not enumerated; policy as of admission time",
    tech=TECH + " (scripted faulty resolver as third party, admission->dial history through the real station, independent oracle at the dial seam)"),
  "C07": dict(cat="exploration", ref="5 C07",
@@ -31,8 +31,8 @@ CHECKS = {
    note="trusted: the admission model (from the property text), recorder stubs for liveness / peer API / detector; messages whose completeness the property leaves open are not generated; repeats of rejected messages are don't-cares",
    tech=TECH + " (decision table through the simulated environment: liveness verdicts, peer delivery, duplicates; executable model as oracle)"),
  "C08": dict(cat="exploration", ref="5 C08",
-   text="all histories up to length 5 (thorough 6) over a 10-operation alphabet are enumerated and long random histories sampled against the real registry under the simulated clock, compared after every step with an expiry reference model",
-   note="trusted: synctest fake clock; the reference model (30 lines) written from the property text; ages within 1 ms of a threshold are don't-cares",
+   text="all histories up to length 4 (thorough 6, bounded per root) over an 11-operation alphabet are enumerated and long random histories sampled against the real registry under the simulated clock, compared after every step with an expiry reference model; one operation is a sweep raced by a connection handler (lookup, then activation) as two tasks whose interleaving at the registry's lock operations the tape decides (systematic part: at most 2 preemptions per history)",
+   note="trusted: synctest fake clock; the reference model (30 lines) written from the property text; ages within 1 ms of a threshold are don't-cares; for a registration that is about to expire while a connection arrives either outcome of the race is accepted (removed entirely, or kept as used)",
    tech=TECH + " (simulated clock, history enumeration + seeded search, reference model)"),
  "C14": dict(cat="exploration", ref="5 C14",
    text="purity under schedules: 2-32 concurrent Select / SelectPhantom calls on one shared selector with every math/rand global call and lock as a scheduling point; each concurrent result must equal the same call executed alone before and after; all schedules of 2 tasks (bounded preemptions for 3-4 tasks) are enumerated for 12 small scenarios, larger ones sampled; containment (family, inside a configured subnet of the generation, port flag) is asserted on every result over generated configurations incl. /32, /128, leading-zero networks, overlaps, zero weights, and an offset sweep of small subnets",
@@ -43,7 +43,7 @@ CHECKS = {
    note="trusted: pion dtls/sctp internals run uninstrumented inside the bubble (their goroutines become tasks only when they enter the listener's locks); the datagram simnet lives in the harness; 'same secret => completes' is only demanded when no datagram fault fired",
    tech=TECH + " (script enumeration below the real stream stack, lock-level scheduling of the listener, simulated datagram network with loss / duplication / delay, simulated clock for the watchdog)"),
  "C17": dict(cat="fault_enumeration", ref="5 C17",
-   text="all single faults: outcome class (no registration, no transport, found via min/prefix/obfs4, transport error) x client family (IPv4, IPv6, v4-mapped) x 17 operation sites on the client connection, the dial and the covert connection x every error shape of that operation; pairs of faults and registration-path events sampled; everything the process writes to stdout/stderr/std logger is captured and searched for every textual form of the client address",
+   text="all single faults: outcome class (no registration, no transport, found via min/prefix/obfs4, transport error) plus connecting-transport registrations whose Connect fails with DTLS-shaped errors or is relayed, x client family (IPv4, IPv6, v4-mapped) x PROXY-header flag x 17 operation sites on the client connection, the dial and the covert connection x every error shape of that operation; pairs of faults and registration-path events sampled; everything the process writes to stdout/stderr/std logger is captured and searched for every textual form of the client address",
    note="trusted: simnet's error shapes mirror the net package's (OpError text with both endpoints); the capture redirects os.Stdout/os.Stderr before any logger is created; statistics printers are exercised under C19, not here",
    tech=TECH + " (fault enumeration over I/O call sites x error shapes with log capture)"),
  "C18": dict(cat="exploration", ref="5 C18",
@@ -71,7 +71,7 @@ CHECKS = {
    note="trusted: the ~40-line restatement of how the client library applies a RegistrationResponse around the real ClientTransports; the request/configuration space is sampled; the station never verifies the response signature itself (reported, not judged: no sentence of the property licenses an oracle for it)",
    tech=TECH + " (three-party agreement registrar -> faulty channel -> stations, seeded search, statistical clause with stated miss probability)"),
  "C13": dict(cat="exploration", ref="5 C13",
-   text="all schedules with at most 2 preemptions at lock operations for six small request/reload scenarios are enumerated, larger ones sampled, on the real RegProcessor with emulated RWMutex semantics (writer preference); deadlock is decided from the wait-for graph, old-or-new-in-full from the returned addresses",
+   text="all schedules with at most 2 preemptions at lock operations (and at the entry of the selector's Select) for 13 small request/reload scenarios (valid, missing and malformed subnet files; servable and unservable requests) are enumerated, larger ones sampled, on the real RegProcessor with emulated RWMutex semantics (writer preference); deadlock is decided from the wait-for graph, old-or-new-in-full from the returned addresses; afterwards a further request and reload must be served, a generation that only the old file has must be gone, and a panic in a request or reload task is a violation",
    note="trusted: the lock emulation's fidelity to sync.RWMutex; code between two lock operations runs atomically (unlocked shared accesses are not interleaved)",
    tech=TECH + " (lock-level cooperative scheduler, bounded-preemption schedule enumeration + seeded search)"),
 }
